@@ -159,6 +159,11 @@ ReplyMatches == [][A_ReplyMatches]_vars
 A_LateAndForeignIgnored ==
     (act'.op = "cdeliver" /\ ~LiveFor(ctab, act'.a, act'.id)) => (ctab' = ctab /\ outs' = outs)
 LateAndForeignIgnored == [][A_LateAndForeignIgnored]_vars
+\* the two directions are separate ID spaces: an abort or segment ack WITHOUT the server bit comes from the peer's client
+\* role and is about a request the peer made to us -- it never touches one of our own requests, equal (peer, ID) or not
+A_DirectionRespected ==
+    (act'.op = "cdeliver" /\ act'.k \notin ToClientTable) => (ctab' = ctab /\ outs' = outs)
+DirectionRespected == [][A_DirectionRespected]_vars
 \* a retransmitted request is not indicated again while the original is being processed
 A_NoDoubleIndication == (act'.op = "scr" /\ LiveFor(stab, act'.a, act'.id)) => (inds' = inds /\ stab' = stab)
 NoDoubleIndication == [][A_NoDoubleIndication]_vars
